@@ -102,6 +102,8 @@ func streamEqEdges(p *Prog, fn *ssa.Function, k int64) map[edge]bool {
 func runC04(c *Check, a *Analysis) {
 	p := c.P
 	sc := siteCounter{}
+	// a push under a wrong sequence number answers somebody else's request a second time
+	ruleStreamCtxStable(c, a, "R-STREAM-CTX-STABLE")
 
 	// ---- R-ONE-SERVE
 	c.Rule("R-ONE-SERVE", "each successful Messages.ReadMessage in a server loop leads to exactly one ServeRequest (inline or one scheduled closure) before the next read or the return", 4)
